@@ -9,6 +9,7 @@ import (
 	"path/filepath"
 	"sort"
 	"strings"
+	"sync/atomic"
 	"testing"
 	"time"
 
@@ -19,10 +20,10 @@ import (
 // schedule is chosen and which faults are injected. It is what a replay file
 // stores.
 type Case struct {
-	Prop   string          `json:"property"`
-	Kind   string          `json:"kind"`
-	Plan   json.RawMessage `json:"plan"`
-	Sched  Sched           `json:"sched"`
+	Prop   string            `json:"property"`
+	Kind   string            `json:"kind"`
+	Plan   json.RawMessage   `json:"plan"`
+	Sched  Sched             `json:"sched"`
 	Faults []simrt.FaultSpec `json:"faults,omitempty"`
 }
 
@@ -78,6 +79,50 @@ type Property struct {
 	Run func(t *testing.T, c *Case, o RunOpts) *Result
 	// Shrink proposes simpler variants of the case's plan.
 	Shrink func(c *Case) []*Case
+}
+
+// currentCase / progress feed the no-progress watchdog: a case that neither
+// finishes nor trips a simulator-level detector (a busy loop that touches no
+// hook and no stream) is reported as a hang with the case as its replay file.
+var (
+	currentCase atomic.Pointer[Case]
+	progress    atomic.Int64
+)
+
+func noteCase(c *Case) {
+	currentCase.Store(c)
+	progress.Add(1)
+}
+
+const hangSeconds = 45
+
+// startWatchdog runs onHang(case) if no case starts or finishes for
+// hangSeconds of wall-clock time. Wall-clock is used only here, as a backstop
+// three orders of magnitude above the slowest case.
+func startWatchdog(onHang func(c *Case)) (stop func()) {
+	done := make(chan struct{})
+	go func() {
+		last, idle := progress.Load(), 0
+		t := time.NewTicker(time.Second)
+		defer t.Stop()
+		for {
+			select {
+			case <-done:
+				return
+			case <-t.C:
+			}
+			if cur := progress.Load(); cur != last {
+				last, idle = cur, 0
+				continue
+			}
+			idle++
+			if idle >= hangSeconds && currentCase.Load() != nil {
+				onHang(currentCase.Load())
+				return
+			}
+		}
+	}()
+	return func() { close(done) }
 }
 
 var registry = map[string]*Property{}
@@ -171,37 +216,37 @@ type Found struct {
 
 // Stats is what a worker writes for the driver to merge.
 type Stats struct {
-	Prop        string           `json:"property"`
-	Seed        uint64           `json:"seed"`
-	Worker      int              `json:"worker"`
-	Units       int              `json:"units"`
-	Runs        int              `json:"runs"`
-	Nontrivial  int              `json:"nontrivial"`
-	Steps       int64            `json:"steps"`
-	Found       []*Found         `json:"found"`
-	ToolErrs    []string         `json:"tool_errors"`
-	Probes      map[string]int   `json:"probes"`
-	FaultsFired map[string]int   `json:"faults_fired"`
-	Strategies  map[string]int   `json:"strategies"`
-	Kinds       map[string]int   `json:"kinds"`
-	Samples     []json.RawMessage `json:"samples"`
-	WallS       float64          `json:"wall_s"`
-	HashFile    string           `json:"hash_file"`
-	MinimiseRuns int             `json:"minimise_runs"`
+	Prop         string            `json:"property"`
+	Seed         uint64            `json:"seed"`
+	Worker       int               `json:"worker"`
+	Units        int               `json:"units"`
+	Runs         int               `json:"runs"`
+	Nontrivial   int               `json:"nontrivial"`
+	Steps        int64             `json:"steps"`
+	Found        []*Found          `json:"found"`
+	ToolErrs     []string          `json:"tool_errors"`
+	Probes       map[string]int    `json:"probes"`
+	FaultsFired  map[string]int    `json:"faults_fired"`
+	Strategies   map[string]int    `json:"strategies"`
+	Kinds        map[string]int    `json:"kinds"`
+	Samples      []json.RawMessage `json:"samples"`
+	WallS        float64           `json:"wall_s"`
+	HashFile     string            `json:"hash_file"`
+	MinimiseRuns int               `json:"minimise_runs"`
 }
 
 type Worker struct {
-	T       *testing.T
-	Prop    *Property
-	Tier    string
-	Stats   *Stats
-	found   map[string]*Found
-	hashes  map[string]struct{}
-	hashOut *os.File
-	unit    int
+	T         *testing.T
+	Prop      *Property
+	Tier      string
+	Stats     *Stats
+	found     map[string]*Found
+	hashes    map[string]struct{}
+	hashOut   *os.File
+	unit      int
 	replayDir string
-	runlog  *os.File
-	nrep    int
+	runlog    *os.File
+	nrep      int
 }
 
 // Report accounts for one executed case and handles a violation: minimise,
@@ -437,6 +482,7 @@ func RunWorker(t *testing.T, propID, tier string, seed uint64, worker, workers, 
 	if p == nil {
 		t.Fatalf("unknown property %q", propID)
 	}
+	start0 := time.Now()
 	st := &Stats{Prop: propID, Seed: seed, Worker: worker, Probes: map[string]int{}, FaultsFired: map[string]int{},
 		Strategies: map[string]int{}, Kinds: map[string]int{}}
 	w := &Worker{T: t, Prop: p, Tier: tier, Stats: st, found: map[string]*Found{}, hashes: map[string]struct{}{}, replayDir: replayDir}
@@ -454,6 +500,24 @@ func RunWorker(t *testing.T, propID, tier string, seed uint64, worker, workers, 
 			defer f.Close()
 		}
 	}
+	writeStats := func() {
+		st.WallS = time.Since(start0).Seconds()
+		sort.Slice(st.Found, func(i, j int) bool { return st.Found[i].Sig < st.Found[j].Sig })
+		if outPath != "" {
+			b, _ := json.MarshalIndent(st, "", " ")
+			os.WriteFile(outPath, b, 0o644)
+		}
+	}
+	stopWatch := startWatchdog(func(c *Case) {
+		v := &simrt.Violation{Class: "hang", Site: "no-progress", Text: fmt.Sprintf("a case made no progress for %d s of wall-clock time (busy loop or block outside every simulated seam)", hangSeconds)}
+		path := filepath.Join(replayDir, fmt.Sprintf("%s-%d-%d-hang.json", propID, seed, worker))
+		WriteReplay(path, c, &Result{Viol: v})
+		st.Found = append(st.Found, &Found{Sig: v.Signature(), Viol: v, Replay: path, Count: 1, First: w.unit})
+		writeStats()
+		cleanupScratch()
+		os.Exit(0) // the driver reads the stats file; the stuck goroutine cannot be stopped
+	})
+	defer stopWatch()
 	start := time.Now()
 	for u := worker; u < units; u += workers {
 		if budget > 0 && time.Since(start) > budget {
@@ -468,14 +532,8 @@ func RunWorker(t *testing.T, propID, tier string, seed uint64, worker, workers, 
 			break
 		}
 	}
-	st.WallS = time.Since(start).Seconds()
-	sort.Slice(st.Found, func(i, j int) bool { return st.Found[i].Sig < st.Found[j].Sig })
-	if outPath != "" {
-		b, _ := json.MarshalIndent(st, "", " ")
-		if err := os.WriteFile(outPath, b, 0o644); err != nil {
-			t.Fatal(err)
-		}
-	}
+	_ = start
+	writeStats()
 }
 
 // RunReplay re-executes a replay file and reports whether the recorded
@@ -493,6 +551,17 @@ func RunReplay(t *testing.T, path string) (reproduced bool, toolErr string) {
 	if p == nil {
 		return false, "unknown property " + rf.Case.Prop
 	}
+	stopWatch := startWatchdog(func(c *Case) {
+		fmt.Printf("replay: no progress for %d s of wall-clock time\n", hangSeconds)
+		if rf.Violation != nil && rf.Violation.Class == "hang" {
+			fmt.Println("REPLAY reproduced")
+		} else {
+			fmt.Println("REPLAY tool-error the replayed case hangs")
+		}
+		cleanupScratch()
+		os.Exit(0)
+	})
+	defer stopWatch()
 	res := p.Run(t, rf.Case, RunOpts{Record: true, KeepLog: true, Expect: rf.Enabled})
 	for _, l := range res.Log {
 		fmt.Println("  " + l)
